@@ -38,9 +38,53 @@ fn eval_case(line: &str) -> String {
     }
 }
 
+/// cold start: in a fresh process, all threads are released together by a barrier and each walks the case list in its own
+/// rotation; nothing is evaluated before. Prints the result of thread 0 for each case, or `NONDET a | b (thread t)`.
+fn cold(threads: usize, lines: Vec<String>) {
+    let lines = Arc::new(lines);
+    let n = lines.len();
+    let barrier = Arc::new(std::sync::Barrier::new(threads));
+    let mut handles = vec![];
+    for t in 0..threads {
+        let lines = Arc::clone(&lines);
+        let barrier = Arc::clone(&barrier);
+        handles.push(std::thread::Builder::new().stack_size(32 << 20).spawn(move || {
+            string_calculator::verif_hooks::reset(u64::MAX);
+            let mut out = vec![String::new(); n];
+            barrier.wait();
+            for i in 0..n {
+                let j = (i + t * 3) % n;
+                out[j] = eval_case(&lines[j]);
+            }
+            out
+        }).unwrap());
+    }
+    let results: Vec<Vec<String>> = handles.into_iter().map(|h| h.join().unwrap()).collect();
+    let stdout = std::io::stdout();
+    let mut o = std::io::BufWriter::new(stdout.lock());
+    for j in 0..n {
+        let mut line = results[0][j].clone();
+        for (t, r) in results.iter().enumerate().skip(1) {
+            if r[j] != results[0][j] {
+                line = format!("NONDET {} | {} (thread {}, cold start)", results[0][j], r[j], t);
+                break;
+            }
+        }
+        writeln!(o, "{}", line).unwrap();
+    }
+    o.flush().unwrap();
+}
+
 fn main() {
     std::panic::set_hook(Box::new(|_| {}));
     let args: Vec<String> = std::env::args().collect();
+    if args.get(1).map(|s| s.as_str()) == Some("cold") {
+        let threads: usize = args.get(2).and_then(|s| s.parse().ok()).unwrap_or(16);
+        let stdin = std::io::stdin();
+        let lines: Vec<String> = stdin.lock().lines().map_while(Result::ok).filter(|l| !l.is_empty()).collect();
+        cold(threads, lines);
+        return;
+    }
     let threads: usize = args.get(1).and_then(|s| s.parse().ok()).unwrap_or(16);
     let stdin = std::io::stdin();
     let lines: Vec<String> = stdin.lock().lines().map_while(Result::ok).filter(|l| !l.is_empty()).collect();
